@@ -242,14 +242,14 @@ Rx ==
                      len |-> Ev.ulen, d |-> (Ev.ppid = 50)]
                r == RxData(e.rx, Ev.tsn, f, OrdF)
            IN ep' = [ep EXCEPT ![s].rx = [r EXCEPT !.out = <<>>],
-                               ![s].expDel = @ \o Without(OutToDel(r.out), e.closingCh)]
+                               ![s].expDel = @ \o Without(OutToDel(r.out), e.closingCh \cup e.closedCh)]
          ELSE IF t = 3 THEN  \* SACK
            ep' = [ep EXCEPT ![s].sq = ApplySack(@, Ev.cum, GapSetOf(Ev.cum, Ev.gaps)),
                             ![s].rwnd = Ev.rwnd, ![s].hasRwnd = TRUE, ![s].since = 0]
          ELSE IF t = 192 THEN  \* FORWARD-TSN: move the point, then deliver what became contiguous
            LET r == Drain(RxForward(e.rx, Ev.cum, StreamSet(Ev.streams)), OrdF)
            IN ep' = [ep EXCEPT ![s].rx = [r EXCEPT !.out = <<>>],
-                               ![s].expDel = @ \o Without(OutToDel(r.out), e.closingCh)]
+                               ![s].expDel = @ \o Without(OutToDel(r.out), e.closingCh \cup e.closedCh)]
          ELSE IF t \in {1, 2} THEN  \* INIT / INIT-ACK: the peer's initial TSN and window
            ep' = [ep EXCEPT ![s].rx = IF e.rx.has THEN @ ELSE [@ EXCEPT !.cum = Ev.tsn - 1, !.has = TRUE],
                             ![s].rwnd = IF e.hasRwnd THEN @ ELSE Ev.rwnd,
@@ -264,9 +264,9 @@ Rx ==
 DeliverHook ==
   /\ Ev.e = "deliver"
   /\ LET s == Ev.s  q == ep[s].expDel
-         ok == Ev.ch \in ep[s].closingCh \/ (q # <<>> /\ q[1].ch = Ev.ch /\ q[1].len = Ev.len)
+         ok == Ev.ch \in (ep[s].closingCh \cup ep[s].closedCh) \/ (q # <<>> /\ q[1].ch = Ev.ch /\ q[1].len = Ev.len)
      IN /\ ext' = ChkX(ext, ok, "DeliverMatchesModel", [side |-> s, ch |-> Ev.ch, len |-> Ev.len])
-        /\ ep' = [ep EXCEPT ![s].expDel = IF Ev.ch \in ep[s].closingCh THEN q ELSE IF ok THEN Tail(q) ELSE <<>>]
+        /\ ep' = [ep EXCEPT ![s].expDel = IF Ev.ch \in (ep[s].closingCh \cup ep[s].closedCh) THEN q ELSE IF ok THEN Tail(q) ELSE <<>>]
   /\ UNCHANGED <<sc, chans, subidx, app, quiet, bad>> /\ Adv
 
 \* what one SACK did to the implementation's retransmission queue (hook sackfx, logged right after the
@@ -320,7 +320,8 @@ Snap ==
          x1 == ChkX(ext, cumOk, "CumMatchesModel", [side |-> s, model |-> e.rx.cum, logged |-> Ev.cum])
          x2 == ChkX(x1, idem, "SetupIdempotent", [side |-> s, next |-> Ev.next, was |-> e.snapNext,
                                                   cum |-> Ev.cum, wascum |-> e.snapCum])
-         x3 == ChkX(x2, Ev.at # "rx" \/ e.expDel = <<>>, "DeliverMatchesModel",
+         \* (a channel may have been closed by the application between the rx event and the delivery)
+         x3 == ChkX(x2, Ev.at # "rx" \/ Without(e.expDel, e.closingCh \cup e.closedCh) = <<>>, "DeliverMatchesModel",
                     [side |-> s, missing |-> Len(e.expDel)])
          \* The sender may stop keeping (or stop retransmitting) a chunk only if a SACK it processed covers
          \* it: at or below that SACK's cumulative TSN, or inside one of its gap blocks taken relative to
